@@ -230,7 +230,7 @@ Proof.
     - pose proof (decimal_adv cur) as D.
       destruct (decimal cur) as [[n q]|e q| | |]; cbn [pbind padv] in *; [ | exact D | exact I | contradiction | contradiction].
       destruct (hd_is_not q close && hd_is_not q 45); [exact D|].
-      destruct ((if ct_slot tb n then n else -1) =? 0); exact D.
+      match goal with |- padv (if ?b then _ else _) _ => destruct b end; exact D.
     - destruct (is_word_char ch).
       + pose proof (scan_word_len' is_word_char to_lower cur) as W. destruct (scan_word is_word_char cur) as [nm q]. cbn [snd] in W.
         destruct (hd_is_not q close && hd_is_not q 45); exact W.
@@ -653,7 +653,7 @@ Lemma round_open_ok tb mco st1 p3 : minv st1 -> ms_unit st1 = None ->
   round_res (round_open tb mco st1 p3) (length p3).
 Proof.
   intros Iv Hu. unfold Parser.round_open.
-  destruct (useRE2 (ms_o st1) && hd_is p3 63 && nth_is 1 p3 80 && nth_is 2 p3 61).
+  destruct (useRE2 (ms_o st1) && negb (ms_ign st1) && hd_is p3 63 && nth_is 1 p3 80 && nth_is 2 p3 61).
   { pose proof (python_backref_adv tb (ms_o st1) (skipn 3 p3)) as P. pose proof (skipn_le 3 p3) as SK.
     destruct (python_backref tb (ms_o st1) (skipn 3 p3)) as [[x q]|e q| | |]; cbn [pbind round_res]; try contradiction; try exact I; auto.
     destruct P as [P1 P2]. apply unit_then_ok; [exact Iv | exact P2 | lia]. }
